@@ -13,6 +13,25 @@ import (
 )
 
 func init() {
+	replayers["C11/after-propagated-panic"] = func(c *Ctx, raw json.RawMessage) string {
+		var cs struct{ Propagator, Probe int }
+		if json.Unmarshal(raw, &cs) != nil {
+			return "unreadable case"
+		}
+		p := c11Probes()[cs.Probe]
+		var ref, got string
+		if pv, pan := recoverTo(func() { ref = p.run() }); pan {
+			return fmt.Sprintf("%s panics in a fresh process: %v", p.name, pv)
+		}
+		recoverTo(c11Propagators[cs.Propagator].Run)
+		if pv, pan := recoverTo(func() { got = p.run() }); pan {
+			return fmt.Sprintf("after %s, the call %s lets the panic escape: %v", c11Propagators[cs.Propagator].Name, p.name, pv)
+		}
+		if got != ref {
+			return fmt.Sprintf("after %s, the call %s returns %q, before it returned %q", c11Propagators[cs.Propagator].Name, p.name, got, ref)
+		}
+		return ""
+	}
 	checks["C11"] = checkC11
 	rules["C11"] = "whole parameter domains: every rune in [-2,0x110001] and every byte through every rune/byte writer of every implementation in three buffer states; every format string of <=k tokens and all 1-2 byte formats; JoinTo operands of every reflect.Kind x 3 writers; user methods panicking at every position of every <=3-op body with 6 payload kinds at nesting depth <=2; distinct = distinct outputs"
 	replayers["C11/runes"] = func(c *Ctx, raw json.RawMessage) string {
@@ -449,6 +468,61 @@ type c11Trio struct {
 
 // c11AfterPanic: an operand in which one element's method panics must print, around the
 // report, exactly what it prints when that element is well-behaved.
+type c11Probe struct {
+	name string
+	run  func() string
+}
+
+func c11Probes() []c11Probe {
+	var probes []c11Probe
+	for m := 0; m < 6; m++ {
+		for _, verb := range panVerbs {
+			m, verb := m, verb
+			probes = append(probes, c11Probe{fmt.Sprintf("Sprintf(%q, value whose %s method panics)", verb, panMethodNames[m]), func() string {
+				return string(redact.Sprintf("a "+verb+" b", c11Panicker(m)))
+			}})
+		}
+	}
+	probes = append(probes, c11Probe{"Sprint(plain operands)", func() string { return string(redact.Sprint("x", 1, redact.Safe("s"))) }})
+	return probes
+}
+
+func c11Panicker(method int) interface{} {
+	switch method {
+	case 0:
+		return panSafeFormat{panScript{nil, 0, 0}}
+	case 1:
+		return panFormat{panScript{nil, 0, 0}}
+	case 2:
+		return panString{0}
+	case 3:
+		return panError{0}
+	case 4:
+		return panGoString{0}
+	}
+	return panSafeMessage{0}
+}
+
+// c11Propagators: calls from which a panic reaches the caller (a method panics with a value whose own printing
+// panics), through every entry point that owns a printer.
+var c11Propagators = []struct {
+	Name string
+	Run  func()
+}{
+	{"Sprintf(%v, Stringer panicking with a value whose String panics)", func() { redact.Sprintf("%v", panStrT{panPayT{"x"}}) }},
+	{"Sprint(error panicking with such a value)", func() { redact.Sprint(panErrT{panPayT{"x"}}) }},
+	{"Sprintf(%v, Formatter panicking with such a value)", func() { redact.Sprintf("%v", panFmtT{panPayT{"x"}}) }},
+	{"Sprintf(%#v, GoStringer panicking with such a value)", func() { redact.Sprintf("%#v", panGoT{panPayT{"x"}}) }},
+	{"Fprint to a writer, same", func() { redact.Fprint(&tstWriter{}, panStrT{panPayT{"x"}}) }},
+	{"HelperForErrorf(%w, error panicking with such a value)", func() { redact.HelperForErrorf("%w", panErrT{panPayT{"x"}}) }},
+	{"Sprintfn whose function panics", func() { redact.Sprintfn(func(p redact.SafePrinter) { p.SafeString("a"); panic("fn") }) }},
+	{"Sprintfn → Print(Stringer panicking with such a value)", func() {
+		redact.Sprintfn(func(p redact.SafePrinter) { p.Print(panStrT{panPayT{"x"}}) })
+	}},
+	{"Sprint(Safe(slice holding such a Stringer))", func() { redact.Sprint(redact.Safe([]interface{}{1, panStrT{panPayT{"x"}}})) }},
+	{"StringBuilder.Printf, same", func() { var b redact.StringBuilder; b.Printf("%v", panStrT{panPayT{"x"}}) }},
+}
+
 func c11AfterPanic(verb string, method, shape int) string {
 	var bad interface{}
 	switch method {
@@ -711,6 +785,34 @@ func checkC11(c *Ctx) {
 			w.Fail("after-panic", map[string]interface{}{"Verb": afterVerbs[vi], "Method": m, "Shape": sh}, d)
 		}
 		w.Seen(uint64(i))
+	})
+	// (h) AFTER a call that let a panic propagate (the one case the property allows: a panic whose own report
+	// panics), later calls contain ordinary method panics as before. One worker: the later call must be able to
+	// receive the printer the earlier call used.
+	c.Section("C11/after-propagated-panic", map[string]interface{}{"propagating_calls": len(c11Propagators), "methods": panMethodNames, "verbs": panVerbs, "workers": 1}, 1, func(_ int, w *Worker) {
+		probes := c11Probes()
+		refs := make([]string, len(probes))
+		for i, p := range probes {
+			if pv, pan := recoverTo(func() { refs[i] = p.run() }); pan {
+				w.Fail("after-propagated-panic", nil, fmt.Sprintf("%s panics in a fresh process: %v", p.name, pv))
+				return
+			}
+		}
+		for pi, prop := range c11Propagators {
+			for i, p := range probes {
+				w.Eval()
+				_, panned := recoverTo(prop.Run)
+				var got string
+				pv, pan := recoverTo(func() { got = p.run() })
+				if pan {
+					w.Fail("after-propagated-panic", map[string]int{"Propagator": pi, "Probe": i}, fmt.Sprintf("after %s (panic propagated to the caller: %v), the call %s lets the panic escape: %v", prop.Name, panned, p.name, pv))
+				} else if got != refs[i] {
+					w.Fail("after-propagated-panic", map[string]int{"Propagator": pi, "Probe": i}, fmt.Sprintf("after %s (panic propagated to the caller: %v), the call %s returns %q, before it returned %q", prop.Name, panned, p.name, got, refs[i]))
+				}
+			}
+		}
+		w.Seen(1)
+		w.Seen(2)
 	})
 	c.Assume("outside the claim, as documented: Grow(<0), memory exhaustion, a nil io.Writer, a nil function passed to Sprintfn, a nil *StringBuilder receiver")
 }
